@@ -2,6 +2,7 @@ import Ypv.Drv.Codec
 import Ypv.Drv.C12
 import Ypv.Model.Eval
 import Ypv.Spec.Select
+import Ypv.Model.Collector
 /-! Driver handler: the evaluator model and its specification (C01, C02, C15).
 
 `{"op":"C01.eval","doc":D,"segs":[…],"rx":[[pattern,text,true|false|null],…],
@@ -111,6 +112,34 @@ def handle (op : String) (j : Json) : Except String Json := do
       ("opt", ← genToJson (Eval.getOptional mt dsc segs d)),
       ("exists", ex),
       ("spec", ← genToJson (Spec.select mt dsc d segs (.real (d, Ctx.root))))])
+  | "coll" =>
+    -- `{"op":"C01.coll","doc":D,"path":text}`: collector paths, evaluated from the TEXT by the parser model and
+    -- `W3.requiredM`; answers the flattened results (node value, address, reported parent / parentref),
+    -- the error class, the document after the query, and the same for `exists`.
+    let d ← nodeOfJson (← j.getObjVal? "doc")
+    let text := s2l (← getStr j "path")
+    let mt : Matcher := W1.mtCompare (C12.rxOf (C12.rxTable j)) W1.noOracle
+    let dsc : Node → Desc := fun rt => Desc.ofParser mt rt W3.segsOf
+    let leafToJson : NC → Json := fun nc =>
+      Json.mkObj [("n", nodeToJson nc.1), ("a", addrToJson nc.2.addr),
+        ("p", match nc.2.parent with | some p => addrToJson p | none => Json.null),
+        ("r", match nc.2.pref with | some r => prefToJson r | none => Json.null)]
+    let q := W3.queryM mt dsc text d
+    let ex : Except Err Bool × W3.St :=
+      if d.evIsNull then (.ok false, W3.St.init d) else
+      match W3.segsOf text with
+      | .error e => (.error e, W3.St.init d)
+      | .ok segs => W3.existsM mt dsc (text.length + 1) segs d
+    pure (Json.mkObj [
+      ("res", Json.arr (q.1.1.map (fun r => Json.arr (r.leaves.map leafToJson).toArray)).toArray),
+      ("err", match q.1.2 with | some e => errToJson e | none => Json.null),
+      ("doc", nodeToJson q.2.doc),
+      ("hashSub", .bool q.2.hashSub),
+      ("ndels", Json.num (Lean.JsonNumber.fromNat q.2.dels.length)),
+      ("exists", match ex.1 with
+        | .ok b => Json.mkObj [("ok", .bool b)]
+        | .error e => Json.mkObj [("err", errToJson e)]),
+      ("exdoc", nodeToJson ex.2.doc)])
   | _ => throw s!"C01: unknown op {op}"
 
 end Ypv.Drv.C01
